@@ -260,6 +260,22 @@ def cw_mutators():
                                               "concurrent conflicting stores both ok")]
 
 
+def conform(o, schedules, tag):
+    """vlib.conformance plus a completeness guard: unless something was rejected (a Hang stops the executor on purpose),
+    the recorded traces must cover EVERY schedule on BOTH implementations.  Guards against a trace file that is not this
+    run's (two ./check C17 runs sharing .work/C17 overwrite each other's files) and against an executor that stops early."""
+    nv, nk, nt = len(o.violations), len(o.known), o.traces
+    vlib.conformance(o, FAMILY, "AggSigDBTrace", "AggSigDBTrace.cfg", "c17", schedules, tag=tag, chunk=125)
+    if len(o.violations) == nv and len(o.known) == nk:
+        tr = vlib.split_traces(vlib.read_ndjson(vlib.workdir("C17") + "/trace_%s.ndjson" % tag))
+        seen = {(t[0].get("sid"), t[0].get("impl")) for t in tr if t and t[0].get("ev") == "Reset"}
+        want = {(i, m) for i in range(len(schedules)) for m in ("v1", "v2")}
+        if seen != want or o.traces - nt != len(want):
+            raise vlib.Infra("stage %s: %d schedules x 2 implementations expected, but the trace file holds %d traces covering %d of "
+                             "them (another run writing to .work/C17, or the executor stopped early)"
+                             % (tag, len(schedules), len(tr), len(seen & want)))
+
+
 def run(tier, seed):
     o = vlib.Outcome("C17", tier, seed)
     thorough = tier == "thorough"
@@ -307,10 +323,10 @@ def run(tier, seed):
                                    depth=60, seed=seed, limit=2500 if thorough else 250)
     rnd = random_schedules(seed, 2000 if thorough else 250, thorough)
     # stage 2+3 (each schedule runs on v1 and on v2)
-    vlib.conformance(o, FAMILY, "AggSigDBTrace", "AggSigDBTrace.cfg", "c17", scheds, tag="tlcgen", chunk=125)
-    vlib.conformance(o, FAMILY, "AggSigDBTrace", "AggSigDBTrace.cfg", "c17", rnd, tag="random", chunk=125)
+    conform(o, scheds, "tlcgen")
+    conform(o, rnd, "random")
     cw = concurrent_schedules(seed, 300 if thorough else 30, thorough)
-    vlib.conformance(o, FAMILY, "AggSigDBTrace", "AggSigDBTrace.cfg", "c17", cw, tag="concurrent", chunk=125)
+    conform(o, cw, "concurrent")
     if not o.violations:
         trc = vlib.split_traces(vlib.read_ndjson(vlib.workdir("C17") + "/trace_concurrent.ndjson"))
         vlib.binding_selftest(o, FAMILY, "AggSigDBTrace", "AggSigDBTrace.cfg", trc, cw_mutators())
